@@ -163,10 +163,9 @@ func (t *WebsocketTransport) LogTraffic(logFile io.Writer) {
 
 func (t *WebsocketTransport) cleanup(code websocket.StatusCode) error {
 	var err error
-	if t.queue != nil {
-		close(t.queue)
-		t.queue = nil
-	}
+	// The queue is not closed: Close is called on copies of the transport (value receiver), so a
+	// second Close would close it again, and the reader go routine may still be about to send on it.
+	// Read returns as soon as the close context is cancelled.
 	if t.wsConn != nil {
 		err = t.wsConn.Close(websocket.StatusGoingAway, "Done")
 		t.wsConn = nil
